@@ -215,6 +215,7 @@ func checkC06(run *mon.Run, rng *mon.Rand, thorough bool) {
 
 func c06Random(run *mon.Run, rng *mon.Rand, length int, sample bool) {
 	e := newL2Env(L2EnvOpts{})
+	e.L2.Speculate = rng.Bool() // half of the schedules: every transaction runs first on a throw-away branch (CheckTx)
 	c := &c06{run: run, stranger: sim.NewAccount("stranger1")}
 	nDeps := length/3 + 10
 	c.deps = mkDeposits(e, nDeps)
